@@ -4,6 +4,7 @@ Deciding monitors: parser conservation (EntryPointToken.get returned a token and
 emitted), lexer conservation, arity table, whitespace/separator invariance, and - for accepted texts on which the
 reference has an opinion - agreement with the reference's parse of the COMPLETE text.  Operand conservation (vf/instr/translate.py): every reference token the lexer produced was
 resolved by the translator and every literal token left its code in what was emitted."""
+import os
 import re
 
 from .. import pipeline, wbspec
@@ -70,7 +71,7 @@ def mutants(f, rng, k):
             '_xlfn.', '_xlws.', '_xlpm.', '@', '[#This Row]', '{1,2}', '#REF!', '#N/A', "''", '_', 'xlfn', '\\', '^', '~', '|', '\u00a0', '\u200b']
     for _ in range(k):
         t = list(toks)
-        m = rng.randrange(13)
+        m = rng.randrange(17)
         i = rng.randrange(len(t)) if t else 0
         if m == 0:
             t.append(rng.choice(pool))
@@ -110,7 +111,22 @@ def mutants(f, rng, k):
             nums = [j for j, x in enumerate(t) if re.match(r'^\d', x)]
             if nums:
                 j = rng.choice(nums)
-                t[j] = t[j] + rng.choice(['E3', 'E-2', 'e+2', '.', '.5.5', 'x'])
+                t[j] = t[j] + rng.choice(['E3', 'E-2', 'e+2', '.', '.5.5', 'x', 'e', 'e-', 'e+', 'e3e', 'e 3', 'e.5', 'E'])
+        elif m in (13, 14, 15, 16):
+            # character level: cut one character out, cut the text short, double or insert a character anywhere (also inside a token:
+            # an exponent without digits, half a reference, an operator split in two)
+            text = ''.join(t)
+            if text:
+                k_ = rng.randrange(len(text))
+                if m == 13:
+                    text = text[:k_] + text[k_ + 1:]
+                elif m == 14:
+                    text = text[:max(1, k_)]
+                elif m == 15:
+                    text = text[:k_] + text[k_] + text[k_:]
+                else:
+                    text = text[:k_] + rng.choice('e!$:.\'"%()A1 ~_') + text[k_:]
+            t = [text]
         elif m == 10:
             t.append('%')
         elif m == 12:
@@ -205,6 +221,8 @@ def plan(tier, seed):
         shards.append({'kind': 'mutate', 'part': p, 'parts': n, 'base': 300 if tier == 'quick' else 5000, 'k': 10 if tier == 'quick' else 12})
     for p in range(4):
         shards.append({'kind': 'long', 'k': 12 if tier == 'quick' else 60, 'part': p, 'parts': 4})
+    for p in range(2 if tier == 'quick' else 8):
+        shards.append({'kind': 'precedent', 'n': 6 if tier == 'quick' else 60})
     return shards
 
 
@@ -411,7 +429,50 @@ def run_long(shard, ctx):
     run_texts(ctx, mine, 'L')
 
 
+PRECEDENT_WRAPS = ['={p}', '=IFERROR({p},0)', '=IFERROR(1/{p},"x")', '=IF(1>0,1,{p})', '=IF({p}>0,1,2)', '=SUM({p}:{p})', '=SUM(A1,{p})', '=IFS(TRUE,1,FALSE,{p})',
+                   '=COUNT({p})', '={p}&"x"', '=-{p}', '=MAX(A1:C1,{p})', '=IFERROR(IFERROR({p},1),2)', '=VLOOKUP(A3,A3:B5,2,FALSE)+{p}', '=LEFT({p},1)',
+                   '=IFERROR(S1!{p},0)', "=IFERROR('S1'!{p}+1,0)"]
+MALFORMED = ['=SUM(1;', '=A1+', '=A1 B1', '=)(', '=SUM(A1,,B1)', '=1+*2', '="abc', '=IF(A1>1,2,3', '=A1%%%', '=FOO(1)', '=A1:', '=1..2', '=SUM(A1:B1)(2)', '=&A1']
+
+
+def run_precedent(shard, ctx):
+    """a malformed formula in a PRECEDENT cell: a cell that refers to it - directly, through an area, inside the guarded argument of
+    IFERROR, in a branch that is never taken - cannot be translated as a whole either; the refusal is the parser exception"""
+    r, rng = ctx.r, ctx.rng
+    tmon = TranslateMonitor.install(r)
+    from excel2pycl import E2PyclParserException
+    for b in range(shard['n']):
+        bad = rng.choice(MALFORMED)
+        cells = dict(BASEC)
+        cells['P9'] = bad
+        cells['Q9'] = '=P9+1'           # one hop further away
+        addrs = {}
+        for i, w in enumerate(rng.sample(PRECEDENT_WRAPS, 8)):
+            a = f'J{i + 8}'
+            cells[a] = w.format(p=rng.choice(['P9', 'P9', 'Q9', '$P$9']))
+            addrs[a] = cells[a]
+        spec = wbspec.spec(wbspec.sheet('S1', cells))
+        path = wbspec.write(spec, os.path.join(ctx.workdir, f'prec{b}.xlsx'))
+        for a, f in addrs.items():
+            tmon.drain()
+            t = pipeline.translate(path, entry=pipeline.entry_cell('S1', a))
+            r.ev()
+            r.count('precedent_refusal_checks')
+            r.nt((bad, f))
+            if not (t.kind == pipeline.LIB_EXC and isinstance(t.exc, E2PyclParserException)):
+                report(r, ID, None, {'text': f, 'how': 'malformed-precedent', 'precedent': bad, 'spec': spec, 'cell': a}, t.brief() if not t.ok else 'a class was returned',
+                       'E2PyclParserException (a precedent of the cell is not a formula of the grammar)', monitor='malformed-precedent-accepted')
+        # the whole workbook cannot be translated either
+        t = pipeline.translate(path)
+        r.ev()
+        if not (t.kind == pipeline.LIB_EXC and isinstance(t.exc, E2PyclParserException)):
+            report(r, ID, None, {'text': bad, 'how': 'malformed-precedent', 'mode': 'whole-file', 'spec': spec}, t.brief() if not t.ok else 'a class was returned',
+                   'E2PyclParserException', monitor='malformed-precedent-accepted')
+
+
 def run_shard(shard, ctx):
+    if shard.get('kind') == 'precedent':
+        return run_precedent(shard, ctx)
     if shard.get('kind') == 'long':
         return run_long(shard, ctx)
     if 'replay' in shard:
